@@ -246,6 +246,9 @@ enum Api {
     ExecuteUnpaged,
     Batch,
     QuerySinglePage,
+    /// the paging API (row stream): its first page goes through a different execution path
+    QueryIter,
+    ExecuteIter,
 }
 
 #[derive(Clone, Debug)]
@@ -259,7 +262,29 @@ struct Op {
 
 async fn issue(session: &Session, prepared: &scylla::statement::prepared::PreparedStatement, o: &Op) -> Result<Option<(i64, i32, i32)>, String> {
     let text = format!("{OPQ}{}, 0)", o.op);
+    if matches!(o.api, Api::QueryIter | Api::ExecuteIter) {
+        use futures::StreamExt;
+        let pager = if o.api == Api::QueryIter {
+            let mut st = scylla::statement::Statement::new(text);
+            st.set_is_idempotent(o.idempotent);
+            st.set_consistency(o.cl);
+            session.query_iter(st, ()).await
+        } else {
+            let mut p = prepared.clone();
+            p.set_is_idempotent(o.idempotent);
+            p.set_consistency(o.cl);
+            session.execute_iter(p, (o.op as i64,)).await
+        };
+        let pager = pager.map_err(|e| format!("{e}"))?;
+        let mut stream = pager.rows_stream::<(i64, i32, i32)>().map_err(|e| format!("undecodable answer: {e}"))?;
+        return match stream.next().await {
+            None => Ok(None),
+            Some(Ok(row)) => Ok(Some(row)),
+            Some(Err(e)) => Err(format!("{e}")),
+        };
+    }
     let res = match o.api {
+        Api::QueryIter | Api::ExecuteIter => unreachable!(),
         Api::QueryUnpaged => {
             let mut st = scylla::statement::Statement::new(text);
             st.set_is_idempotent(o.idempotent);
@@ -427,7 +452,7 @@ fn gen_c06_ops(rng: &mut Rng, n: usize) -> Vec<Op> {
             op: next_op(),
             script,
             idempotent: rng.chance(1, 3),
-            api: *rng.pick(&[Api::QueryUnpaged, Api::ExecuteUnpaged, Api::Batch, Api::QuerySinglePage]),
+            api: *rng.pick(&[Api::QueryUnpaged, Api::ExecuteUnpaged, Api::Batch, Api::QuerySinglePage, Api::QueryIter, Api::ExecuteIter]),
             cl: *rng.pick(&[Consistency::One, Consistency::Quorum, Consistency::LocalQuorum, Consistency::All, Consistency::Two]),
         });
     }
@@ -590,7 +615,7 @@ pub fn run_c06_b(ctx: &Ctx) -> Outcome {
             break;
         }
     }
-    for c in ["api:QueryUnpaged", "api:ExecuteUnpaged", "api:Batch", "api:QuerySinglePage", "policy:default", "policy:downgrading", "policy:fallthrough",
+    for c in ["api:QueryUnpaged", "api:ExecuteUnpaged", "api:Batch", "api:QuerySinglePage", "api:QueryIter", "api:ExecuteIter", "policy:default", "policy:downgrading", "policy:fallthrough",
         "non-idempotent:resent-after-proof-of-non-application", "non-idempotent:stopped", "decision:retry-same-target", "decision:retry-next-target"] {
         out.require_class(c);
     }
@@ -616,6 +641,10 @@ fn judge_c13(o: &mut Outcome, ops: &[Op], max: usize, interval: u64, r: &CaseOut
             "result": format!("{:?}", r.results.get(&op.op))});
         o.case(fw::hash64(format!("{max}:{interval}:{:?}:{}", op.script, op.idempotent).as_bytes()), true);
         o.class(if op.idempotent { "idempotent" } else { "non-idempotent" });
+        o.class(&format!("api:{:?}", op.api));
+        if max == 0 {
+            o.class("max-speculative-executions:0");
+        }
         if r.hung.contains(&op.op) {
             o.violation("c13b:call-never-returned", format!("request {} did not return within 25 s", op.op), replay.clone());
             continue;
@@ -650,6 +679,8 @@ fn judge_c13(o: &mut Outcome, ops: &[Op], max: usize, interval: u64, r: &CaseOut
             }
             if frames.len() > 1 {
                 o.class("idempotent:speculative-execution-started");
+            } else if max == 0 {
+                o.class("idempotent:no-speculation-with-max-0");
             }
             // first real answer wins: the only answers written before the call returned are the candidates
             if let Some(Ok(Some((rop, attempt, node)))) = r.results.get(&op.op) {
@@ -693,7 +724,7 @@ pub fn run_c13_b(ctx: &Ctx) -> Outcome {
     let n_cases = ctx.vol(100, 2000);
     let mut cases = Vec::new();
     for _ in 0..n_cases {
-        let max = rng.usize(1, 3);
+        let max = rng.usize(0, 3);
         let interval = *rng.pick(&[4u64, 9, 15]);
         let mut ops = Vec::new();
         for _ in 0..8 {
@@ -702,7 +733,13 @@ pub fn run_c13_b(ctx: &Ctx) -> Outcome {
             let first = if rng.bool() { Att::Withhold } else { Att::OkAfter(interval * *rng.pick(&[3u64, 8, 20])) };
             let later = |rng: &mut Rng| if rng.chance(1, 3) { Att::OkAfter(rng.below(interval * 3)) } else { Att::Ok };
             let script = vec![first, later(&mut rng), later(&mut rng), later(&mut rng), Att::Ok];
-            ops.push(Op { op: next_op(), script, idempotent: rng.bool(), api: *rng.pick(&[Api::QueryUnpaged, Api::ExecuteUnpaged]), cl: Consistency::One });
+            ops.push(Op { op: next_op(), script, idempotent: rng.bool(), api: *rng.pick(&[Api::QueryUnpaged, Api::ExecuteUnpaged, Api::QueryIter, Api::ExecuteIter]), cl: Consistency::One });
+        }
+        // with max = 0 no second execution may ever start: a withheld first answer would never be released
+        if max == 0 {
+            for o in ops.iter_mut() {
+                o.script[0] = Att::OkAfter(interval * 8);
+            }
         }
         // a withheld first answer of a NON-idempotent request would never be released: give those a late answer instead
         for o in ops.iter_mut() {
@@ -736,7 +773,7 @@ pub fn run_c13_b(ctx: &Ctx) -> Outcome {
                     *a = Att::Err("overloaded");
                 }
             }
-            ops.push(Op { op: next_op(), script, idempotent: true, api: *rng.pick(&[Api::QueryUnpaged, Api::ExecuteUnpaged]), cl: Consistency::One });
+            ops.push(Op { op: next_op(), script, idempotent: true, api: *rng.pick(&[Api::QueryUnpaged, Api::ExecuteUnpaged, Api::QueryIter, Api::ExecuteIter]), cl: Consistency::One });
         }
         cases.push((ops, max, interval, 2u8));
     }
@@ -765,7 +802,7 @@ pub fn run_c13_b(ctx: &Ctx) -> Outcome {
             break;
         }
     }
-    for c in ["idempotent:definitive-error-returned", "idempotent", "non-idempotent", "idempotent:speculative-execution-started", "non-idempotent:single-execution-despite-slow-node", "idempotent:returned-while-slow-execution-still-pending"] {
+    for c in ["api:QueryIter", "api:ExecuteIter", "max-speculative-executions:0", "idempotent:definitive-error-returned", "idempotent", "non-idempotent", "idempotent:speculative-execution-started", "non-idempotent:single-execution-despite-slow-node", "idempotent:returned-while-slow-execution-still-pending"] {
         out.require_class(c);
     }
     out
